@@ -22,6 +22,7 @@ FAMILIES = {
     "nesting": {"model": _STACK_MODEL, "spec": _STACK_SPEC},
     "policy": {"model": _STACK_MODEL, "spec": _STACK_SPEC},
     "defragro": {},
+    "revealro": {},
     "awkward": {"spec": {"imports": "Base AwkCorr", "type": "acase", "fn": "acheck"}},
     "roreflect": {"spec": {"imports": "Base AwkCorr", "type": "acase", "fn": "acheck"}, "methods_crosscheck": True},
     "queryreflect": {"spec": {"imports": "Base AwkCorr", "type": "acase", "fn": "acheck"}, "methods_crosscheck": True},
@@ -34,7 +35,7 @@ FAMILIES = {
 }
 
 PROPS = {
-    "C01": {"props_file": "Props/C01.v", "families": ["hist"], "design_ref": "DESIGN.md §8 C01",
+    "C01": {"props_file": "Props/C01.v", "families": ["hist", "nesting"], "design_ref": "DESIGN.md §8 C01",
             "level_text": "Theorem c01_history_refines: for every element type, configuration and EVERY finite history of the 24 list operations (unbounded length, by induction) the raw-slot model of stack.go (whose guards are regenerated from /repo by the translator) never panics, stays well-formed and returns/ends exactly like the ordered-list specification. The model is tied to the code by the hist family (exhaustive short + random long histories, full re-observation after every mutator) evaluated in Coq against model and specification.",
             "technique": "Coq refinement proof (induction over histories) over a partly regenerated model + differential correspondence check"},
     "C03": {"props_file": "Props/C03.v", "families": ["hist", "transfer", "policy", "sched", "marshaljunk"], "design_ref": "DESIGN.md §8 C03",
@@ -44,7 +45,7 @@ PROPS = {
             "level_text": "Index part proved: every history with arbitrary Go-int indices (MinInt/MaxInt included) runs without Panic in the regenerated raw-slot model and never reads or overwrites the configuration slot; non-addressing indices make Index/Remove/Replace/Swap fail with the state untouched; -k / oversize indices address what the options promise. Value part: panics on awkward Go values live in reflect and cannot be proved over a model of Go; it is decided by the exhaustive awkward-value family (24 methods x 52 values x receiver states + observer battery) and, for the two alias converters, by the theorems of C12.",
             "technique": "Coq proof over the regenerated index/guard fragments (all ints) + exhaustive boundary sweep and awkward-value differential families",
             "assumptions": ["the value part (arbitrary Go values through reflect) is covered by exhaustive enumeration of a 52-value catalogue, not by a theorem"]},
-    "C09": {"props_file": "Props/C09.v", "families": ["roreflect", "transfer", "defragro"], "design_ref": "DESIGN.md §8 C09",
+    "C09": {"props_file": "Props/C09.v", "families": ["roreflect", "transfer", "defragro", "revealro"], "design_ref": "DESIGN.md §8 C09",
             "level_text": "Static leg: the translator regenerates a guard IR of EVERY function of the package; Guard.v gives it a trace semantics and a summary-based analysis proved sound in Coq; theorem c09_ro_no_write_every_method applies it to every exported method in the source now (new methods included) on an initialised read-only receiver: no store into the receiver on any path, exceptions SetReadOnly/ReadOnly/SetErr/Init only. Model leg: every mutator of the list model is a no-op under read-only and clearing the flag restores the exact state. Dynamic leg: every method found by reflection x argument variants x read-only receivers, deep hidden-state snapshots (VerifDump) identical; the reflected method set must equal the translator's table.",
             "race": {"mode": "options", "rounds": [30, 600], "workers": 9, "invariants_only": True},
             "technique": "Coq-proved static analysis over a guard IR regenerated from the source + model frame theorems + reflection-driven differential check",
